@@ -361,3 +361,21 @@ CLAIMS["C03"]["text"] += (" Scope collection is an operation of the concurrent p
     "TestCollectionRacesFirstUse owns the schedule as far as the API allows: after a generated prefix that leaves idle peers with sub-scopes in protocols/services other peers keep alive, a first-use limit lookup (made by the manager under that protocol's/service's lock) is held inside the harness' limiter, a collection is started, a user re-opens streams for the collected peers, then the lookup is released; "
     "at quiescence every scope incl. the sub-scopes must equal the sum of the streams still open, no sub-scope limit may be exceeded by the holders' own count, and everything reads zero after release.")
 CLAIMS["C03"]["note"] += (" TestCollectionRacesFirstUse runs in real time; which interleaving a case explores is not exactly reproducible (rapid may report 'flaky' for a seeded defect), its verdict does not depend on timing.")
+
+CLAIMS["C02"]["text"] += (" The same length, write-size and read-buffer plans also run, in the quick tier, over connections made by the real WebSocket transport on loopback: every Write there is one message, so each layer's largest single Write (a full 65537-byte Noise frame, 64 KiB yamux and pnet writes) is exercised on a message-framed wire, bare (Noise/TLS/pnet) and through the full upgrader stack. "
+    "In virtual time, streams at the yamux, upgrader and host layers also stay idle for 1.5-130 s, longer than every timeout the library arms itself; the host layer additionally draws a NegotiationTimeout (1 s, 3 s, the 10 s default, 30 s, none) and handlers that keep the inbound stream for its whole lifetime.")
+CLAIMS["C02"]["note"] += (" WebSocket cases use real loopback sockets outside bubbles and assume 127.0.0.1 is loss-free; a stall or set-up failure there is inconclusive, labels come from the plan only, and the tests are skipped and labelled if the transport cannot listen.")
+CLAIMS["C07"]["text"] += (" The connection kind is generated (direct; limited = flagged pipe; limited = real circuit-v2 relay host as the only route between the two hosts). Where an opener's knowledge is the library's own (two BasicHosts, no harness peerstore write) and the system is quiescent after a handler change, "
+    "a protocol the responder has stopped announcing and accepting is no longer an excuse for a first-use failure when a requested protocol is common: stale-after-removal is tolerated while the identify push is in flight, not after it was delivered, on limited as on direct connections.")
+CLAIMS["C07"]["note"] += (" That rule relies on documented identify-push behaviour (a BasicHost pushes every change of its announced set, the receiver replaces its knowledge); quiescence (synctest.Wait) is taken to mean delivered. Relay limits (30 min, 4 MiB) are far above what a case uses.")
+CLAIMS["C18"]["text"] += (" Dialled addresses are generated over (0..5 certhashes) x (no name | /sni, the shape Resolve produces | /dns4 | /dns4+/sni) x (the dialling transport's own TLS client configuration: none, InsecureSkipVerify, private root pool with and without name check, accepting VerifyConnection hook): whatever the names and the client configuration, a real dial completes only if the served certificate's SHA-256 is pinned by the address and every certhash is confirmed. "
+    "In the timeline model every hash list handed out by the certificate manager (the listener's Noise early data) is kept by reference and re-read within the 10 s handshake timeout, including across the 1st..nth rollover: it must still decode, hold the hash served at fetch time, and confirm every address that instance advertised in the current or previous period.")
+CLAIMS["C18"]["note"] += (" Assumes a handshake is in flight for at most 10 s; unresolved /dns4 addresses are judged on 'must not complete' only.")
+CLAIMS["C01"]["text"] += (" The expected-peer setting is generated as an arbitrary byte string: empty, the genuine ID, another key's ID, or a non-empty non-ID (the genuine ID truncated, with stray bytes, with a corrupted multihash header or a flipped bit, a free-form label, arbitrary bytes). A side that names any non-empty ID completes only if the authenticated remote ID is byte-identical: "
+    "checked on Noise and TLS SecureOutbound/SecureInbound (enumerated representatives for every key-type pair plus drawn members), on the upgrader in both directions, on Identity.ConfigForPeer under plain crypto/tls as QUIC and WebTransport use it, on the QUIC transport's Dial in its three roles, and on swarm DialPeer.")
+CLAIMS["C01"]["note"] += (" Non-ID names are derived from the genuine remote's ID (near misses) or drawn freely; through swarm.DialPeer such names are additionally screened by ID.Validate.")
+CLAIMS["C19"]["text"] += (" A public key is also sent in 15 non-canonical but valid encodings (unknown protobuf fields, field order, over-long varints, duplicated fields, other point / DER forms) by honest and attacking clients and by the harness server, for all four key types and both flows; the identity a key proves is computed by the harness from the key material per the peer-ID spec, so an ID derived from the bytes as sent is a violation. "
+    "Every server instance is served by ServeHTTP or by the handshake state machine driven directly, fresh per request or ONE value re-used through Reset() (pooled use), all under the same provenance oracle, so state of an earlier request leaking into a later challenge or report is caught.")
+CLAIMS["C19"]["note"] += (" The re-used state machine is reached through the add-only hook p2p/http/auth/export_verif.go (type alias, build tag verif); the direct engines re-implement ServeHTTP's glue and recognise the three re-challenge errors by their text; re-use without Reset() is not exercised; x509.MarshalPKIXPublicKey and the standard-library keys behind libp2p keys are trusted as the key material.")
+CLAIMS["C08"]["text"] += (" Peer-ID checks run under both values of the process-wide option peer.AdvancedEnableInlining: the locally derived ID equals the reference definition for the setting (identity multihash iff inlining is on and the key is <= 42 bytes, else sha2-256), and both IDs of a key (as derived by a peer with inlining on or off, received through any serialized form) round-trip in every form and yield the key exactly when they embed it, independent of the local setting.")
+CLAIMS["C08"]["note"] += (" MatchesPublicKey is judged against the ID for the current setting only (the library re-derives the ID; the statement does not require an ID derived under the other setting to match). Envelope, peerstore and key tests run under the default setting only.")
